@@ -2,7 +2,12 @@
 import importlib, json, os
 from .common import VERIF
 
-CLAIMED = ["c02", "c04", "c05", "c07", "c09", "c10", "c11", "c16", "c17", "c18"]
+CLAIMED = ["c02", "c04", "c05", "c07", "c09", "c10", "c11", "c16", "c17", "c18", "c19"]
+
+LEVEL_TEXT_EXTRA = {
+    "C19": ("Bounded model checking of the real file/directory/redirect/proxy handlers and of the connection condition with a directly constructed request: for every origin address that is on a blacklist of 1-2 symbolic IPv4 (or IPv6 ::a:b) entries, in either mode and with the cache on or off, the response is 403 with the fixed body and neither the cache, the file system nor the upstream is reached (they are replaced by markers that fail the proof when reachable); an unlisted origin on a redirect route is served; verify_connection refuses exactly the listed peers in block mode. Socket-level behaviour, X-Forwarded-For derivation and the 'served normally' direction for file/proxy routes are outside.",
+            "Trusted: Kani/CBMC; marker stubs for Cache::get, File::open, try_find_path, proxy_request; format! stub; peer_addr stub."),
+}
 
 NOT_APPLICABLE = {
     "C06": "file-system confinement: the property is about what metadata/canonicalize/File::open return (FFI, symlinks, OS path semantics); the only solver-sized kernel sits behind percent_decode and format! which Kani cannot symbolically execute within reach (DESIGN §2, §6)",
@@ -42,7 +47,7 @@ def build():
     for name in CLAIMED:
         m = importlib.import_module("vlib.props." + name)
         pid = m.ID
-        text, note = LEVEL_TEXT[pid]
+        text, note = LEVEL_TEXT.get(pid) or LEVEL_TEXT_EXTRA[pid]
         eng = getattr(m, "ENGINE", "K")
         served.setdefault(eng, []).append(pid)
         checks.append({
